@@ -18,6 +18,7 @@
 #include <memory>
 #include <stdexcept>
 #include <functional>
+#include <algorithm>
 #include <csignal>
 #include <fcntl.h>
 #include <unistd.h>
@@ -103,8 +104,8 @@ struct State {
     // serializer
     std::unique_ptr<Exact> ser_buf; Bytes ser_vec; std::unique_ptr<util::Serializer> ser; bool ser_raw = false;
     // deserializer
-    std::unique_ptr<Exact> des_buf; std::unique_ptr<util::Deserializer> des;
-    void reset() { ser.reset(); ser_buf.reset(); ser_vec.clear(); des.reset(); des_buf.reset(); }
+    std::unique_ptr<Exact> des_buf; std::unique_ptr<util::Deserializer> des; const uint8_t *des_base = nullptr;
+    void reset() { ser.reset(); ser_buf.reset(); ser_vec.clear(); des.reset(); des_buf.reset(); des_base = nullptr; }
 };
 static State g;
 
@@ -337,6 +338,7 @@ static bool run(std::vector<std::string> w, std::vector<std::string> &out) {
     if (op == "des.new" && w.size() == 3 && vh::unhex(w[1], a) && endian_of(w[2], e)) {
         g.des.reset(); g.des_buf.reset(new Exact(a));
         g.des.reset(new util::Deserializer(g.des_buf->get(), a.size(), e));
+        g.des_base = g.des_buf->get();
         out.push_back("P des new"); return true;
     }
     if (op == "des.int" && w.size() == 2 && g.des && width_of(w[1], width)) {
@@ -377,7 +379,7 @@ static bool run(std::vector<std::string> w, std::vector<std::string> &out) {
     // checkSize(n) and the accessors start() / size() / ptr()
     if (op == "des.check" && w.size() == 2 && g.des && vh::to_u64(w[1], n) && std::to_string(n) == w[1]) {
         bool r = g.des->checkSize(n);
-        bool acc = g.des->start() == g.des_buf->get() && g.des->ptr() == g.des->start() + g.des->pos();
+        bool acc = g.des->start() == g.des_base && g.des->ptr() == g.des->start() + g.des->pos();
         out.push_back(std::string("P des check=") + (r ? "1" : "0") + " pos=" + std::to_string(g.des->pos()) + " size="
                       + std::to_string(g.des->size()) + (acc ? "" : " ACCESSORS-WRONG"));
         return true;
@@ -461,6 +463,149 @@ static bool run(std::vector<std::string> w, std::vector<std::string> &out) {
         out.push_back(good ? "P ser.rt ok bytes=" + vh::hex(block) : "P ser.rt FAIL bytes=" + vh::hex(block));
         return true;
     }
+    // ------------------------------------------------------------------ round 8: histories on ONE object, inputs derived from its state
+    // a Deserializer over what the Serializer has produced so far. Fixed buffer: over the SAME memory (the serializer may go on
+    // appending behind the view); vector: over a copy (the vector may move when it grows)
+    if (op == "ser.view" && w.size() == 2 && g.ser && endian_of(w[1], e)) {
+        g.des.reset();
+        if (g.ser_raw) {
+            g.des_buf.reset(); g.des_base = g.ser_buf->get();
+        } else {
+            g.des_buf.reset(new Exact(Bytes(g.ser_vec.begin(), g.ser_vec.begin() + (long)std::min(g.ser->pos(), g.ser_vec.size()))));
+            g.des_base = g.des_buf->get();
+        }
+        g.des.reset(new util::Deserializer(g.des_base, g.ser->pos(), e));
+        out.push_back("P des new"); return true;
+    }
+    // AES(k0 or nullptr), then any number of setKey (k:) / cipher (e:) / invcipher (d:) calls on that one object
+    if (op == "aes.hist" && w.size() >= 3 && vh::unhex(w[1], a) && (a.size() == 16 || a.empty())) {
+        struct St { char kind; Bytes v; };
+        std::vector<St> steps;
+        for (size_t i = 2; i < w.size(); ++i) {
+            St st{};
+            if (w[i].size() < 3 || w[i][1] != ':' || std::string("kedKED").find(w[i][0]) == std::string::npos) return false;
+            st.kind = w[i][0];
+            if (!vh::unhex(w[i].substr(2), st.v) || st.v.size() != 16) return false;
+            steps.push_back(st);
+        }
+        // lower case = object A, upper case = object B (AES(nullptr)); an object must have a key before it is used
+        bool keyedA = !a.empty(), keyedB = false;
+        for (auto &st : steps) {
+            bool onB = st.kind < 'a'; bool &keyed = onB ? keyedB : keyedA;
+            if (st.kind == 'k' || st.kind == 'K') keyed = true; else if (!keyed) return false;
+        }
+        Exact k0(a);
+        crypto::AES aes(a.empty() ? nullptr : k0.get());
+        crypto::AES aesB(nullptr);
+        std::string line = "P aes.hist";
+        bool any = false;
+        for (auto &st : steps) {
+            Exact in(st.v);
+            crypto::AES &obj = st.kind < 'a' ? aesB : aes;
+            char kind = (char)(st.kind | 0x20);
+            if (kind == 'k') { obj.setKey(in.get()); continue; }
+            Exact o(16);
+            if (kind == 'e') obj.cipher(in.get(), o.get()); else obj.invcipher(in.get(), o.get());
+            line += " " + vh::hex(o.get(), 16); any = true;
+        }
+        out.push_back(any ? line : line + " -");
+        return true;
+    }
+    // r1 = Crc(d1, seed); r2 = Crc(d2, link(r1)); ...   link: p = previous result, n = its complement, z = 0, f = all ones
+    if ((op == "crc32.seq" || op == "crc16.seq") && w.size() >= 3 && w.size() % 2 == 1 && vh::to_u64(w[1], v)
+        && v < (op == "crc32.seq" ? (1ull << 32) : 65536ull) && vh::unhex(w[2], a)) {
+        bool is32 = op == "crc32.seq";
+        std::vector<std::pair<char, Bytes>> rest;
+        Bytes whole = a;
+        for (size_t i = 3; i + 1 < w.size(); i += 2) {
+            if (w[i].size() != 1 || std::string("pnzf").find(w[i][0]) == std::string::npos) return false;
+            Bytes d; if (!vh::unhex(w[i + 1], d)) return false;
+            rest.push_back({w[i][0], d}); whole.insert(whole.end(), d.begin(), d.end());
+        }
+        std::string line = "P " + op;
+        uint64_t mask = is32 ? 0xffffffffull : 0xffffull;
+        auto calc = [&](const Bytes &d, uint64_t seed) -> uint64_t {
+            Exact in(d);
+            return is32 ? (uint64_t)util::CalcCrc32(in.get(), in.n, (uint32_t)seed) : (uint64_t)util::CalcCrc16(in.get(), in.n, (uint16_t)seed);
+        };
+        uint64_t r = calc(a, v);
+        line += " " + std::to_string(r);
+        for (auto &st : rest) {
+            uint64_t seed = st.first == 'p' ? r : st.first == 'n' ? (~r & mask) : st.first == 'z' ? 0 : mask;
+            r = calc(st.second, seed);
+            line += " " + std::to_string(r);
+        }
+        line += " whole=" + std::to_string(calc(whole, v));
+        out.push_back(line);
+        return true;
+    }
+    // several scalable integers in ONE buffer: d:<v>:<off> = Dump(v, buf + off, size - off), p:<off> = Parse(buf + off, size - off)
+    if (op == "si.buf" && w.size() >= 3 && vh::unhex(w[1], a) && a.size() <= 4096) {
+        struct St { bool dump; uint64_t v; uint64_t off; };
+        std::vector<St> steps;
+        for (size_t i = 2; i < w.size(); ++i) {
+            St st{};
+            auto parts = std::vector<std::string>();
+            size_t from = 0;
+            while (true) { auto c = w[i].find(':', from); if (c == std::string::npos) { parts.push_back(w[i].substr(from)); break; } parts.push_back(w[i].substr(from, c - from)); from = c + 1; }
+            if (parts.size() == 3 && parts[0] == "d" && vh::to_u64(parts[1], st.v) && std::to_string(st.v) == parts[1]
+                && vh::to_u64(parts[2], st.off) && std::to_string(st.off) == parts[2]) st.dump = true;
+            else if (parts.size() == 2 && parts[0] == "p" && vh::to_u64(parts[1], st.off) && std::to_string(st.off) == parts[1]) st.dump = false;
+            else return false;
+            if (st.off > a.size()) return false;
+            steps.push_back(st);
+        }
+        Exact buf(a);
+        std::string line = "P si.buf";
+        for (auto &st : steps) {
+            if (st.dump) {
+                size_t r = util::DumpScalableInteger(st.v, buf.get() + st.off, buf.n - st.off);
+                line += " d=" + std::to_string(r);
+            } else {
+                uint64_t val = 0;
+                size_t r = util::ParseScalableInteger(buf.get() + st.off, buf.n - st.off, val);
+                line += " p=" + std::to_string(r) + "/" + (r ? std::to_string(val) : std::string("-"));
+            }
+        }
+        out.push_back(line);
+        out.push_back("M si.buf buf=" + vh::hex(buf.get(), buf.n));      // bytes outside the encodings: within the capacity given
+        return true;
+    }
+    // two MD5 objects used in turns, in this process (a step on a finished object is not driven here: bad-op)
+    if (op == "md5.two" && w.size() >= 2) {
+        struct St { bool onB; bool fin; Bytes data; };
+        std::vector<St> steps;
+        bool finA = false, finB = false;
+        for (size_t i = 1; i < w.size(); ++i) {
+            St st{};
+            if (w[i] == "fa" || w[i] == "fb") { st.onB = w[i][1] == 'b'; st.fin = true; }
+            else if (w[i].compare(0, 2, "a:") == 0 || w[i].compare(0, 2, "b:") == 0) { st.onB = w[i][0] == 'b'; if (!vh::unhex(w[i].substr(2), st.data)) return false; }
+            else return false;
+            bool &fin = st.onB ? finB : finA;
+            if (fin) return false;
+            if (st.fin) fin = true;
+            steps.push_back(st);
+        }
+        crypto::MD5 ma, mb;
+        std::string line = "P md5.two"; bool any = false;
+        for (auto &st : steps) {
+            crypto::MD5 &m = st.onB ? mb : ma;
+            if (st.fin) { Exact dig(16); m.finish(dig.get()); line += std::string(st.onB ? " b=" : " a=") + vh::hex(dig.get(), 16); any = true; }
+            else { Exact in(st.data); m.update(in.get(), in.n); }
+        }
+        out.push_back(any ? line : line + " -");
+        return true;
+    }
+    // Base64: decode t1, then t2, into the SAME buffer (never re-initialised in between)
+    if (op == "b64.dec2" && w.size() == 4 && vh::unhex(w[1], a) && vh::unhex(w[2], b) && vh::to_u64(w[3], n) && n < (1u << 24)) {
+        Exact in1(a), in2(b), o(n);
+        size_t r1 = util::base64::Decode((const char *)in1.get(), in1.n, o.get(), n);
+        std::string o1 = vh::hex(o.get(), r1 <= n ? r1 : 0);
+        size_t r2 = util::base64::Decode((const char *)in2.get(), in2.n, o.get(), n);
+        out.push_back("P b64.dec2 ret=" + std::to_string(r1) + " out=" + o1 + " ret=" + std::to_string(r2) + " out=" + vh::hex(o.get(), r2 <= n ? r2 : 0));
+        if (r1 > 0 && r2 > 0 && r2 <= n) out.push_back("M b64.dec2 rest=" + vh::hex(o.get() + r2, n - r2));
+        return true;
+    }
     // ------------------------------------------------------------------ CRC / checksums
     if (op == "crc16" && w.size() == 3 && vh::unhex(w[1], a) && vh::to_u64(w[2], v) && v < 65536) {
         Exact in(a);
@@ -523,6 +668,19 @@ static bool run(std::vector<std::string> w, std::vector<std::string> &out) {
         out.push_back(std::string("P url.host ret=") + (r ? "1" : "0") + " user=" + vh::hex(h.user) + " pw=" + vh::hex(h.password) + " host="
                       + vh::hex(h.host) + " port=" + std::to_string(h.port) + " str=" + vh::hex(http::UrlHostToString(h))
                       + (how == "-" ? "" : " " + how));
+        return true;
+    }
+    // two parses into the SAME Url::Host object
+    if (op == "url.host2" && w.size() == 3 && vh::unhex(w[1], a) && vh::unhex(w[2], b)) {
+        http::Url::Host h;
+        std::string line = "P url.host2";
+        for (int k = 0; k < 2; ++k) {
+            bool r = false; std::string how;
+            try { r = http::StringToUrlHost(str_of(k ? b : a), h); } catch (const std::exception &) { how = " exception-escaped"; }
+            line += std::string(k ? " | " : " ") + "ret=" + (r ? "1" : "0") + " user=" + vh::hex(h.user) + " pw=" + vh::hex(h.password) + " host="
+                    + vh::hex(h.host) + " port=" + std::to_string(h.port) + how;
+        }
+        out.push_back(line);
         return true;
     }
     if (op == "url.mkhost" && w.size() == 5 && vh::unhex(w[1], a) && vh::unhex(w[2], b) && vh::to_u64(w[4], n) && n < 65536) {
